@@ -26,7 +26,7 @@ HORIZON = 4000.0
 RANK = {"INITIALIZED": 0, "SOCKET_OPENED": 1, "HANDSHAKE_COMPLETE": 2, "CONNECTED": 3, "CLOSED": 4}
 
 USER_ACTS = ("disconnect", "force", "cancel")
-FAULT_ACTS = ("eof", "reset", "writefail_raise", "writefail_fatal", "silence")
+FAULT_ACTS = ("eof", "reset", "writefail_raise", "writefail_fatal", "silence", "writefail_raise_rt")
 FRAME_NAMES = (
     "discreq", "state", "state2", "ping", "pong", "devinfo", "unknown", "garbage", "reqenc", "badproto",
     "hello", "connresp", "discresp", "badmac", "gettime",
@@ -294,6 +294,10 @@ def run(case: dict, *, count_only: bool = False) -> Obs:
             obs.skipped.append(f"{idx}:{act}-before-connection_made")
         elif act == "writefail_raise":
             tr.write_fail = ("raise", OSError(32, "Broken pipe"))
+            env.log("fault_armed", what=act)
+        elif act == "writefail_raise_rt":
+            # uvloop (and asyncio after write_eof / on a closed handle) raise RuntimeError from write()
+            tr.write_fail = ("raise", RuntimeError("unable to perform operation on <TCPTransport closed=True>; the handler is closed"))
             env.log("fault_armed", what=act)
         elif act == "writefail_fatal":
             tr.write_fail = ("fatal", BrokenPipeError(32, "Broken pipe"))
@@ -695,7 +699,7 @@ def case_strategy(draw, tier: str = "quick", max_events: int = 4, min_events: in
 # enumerated sweeps (finite sub-domains)
 # ===========================================================================
 SWEEP_CAUSES: list[dict] = (
-    [{"do": a} for a in ("disconnect", "force", "cancel", "eof", "reset", "writefail_raise", "writefail_fatal", "reuse_start", "reuse_finish")]
+    [{"do": a} for a in ("disconnect", "force", "cancel", "eof", "reset", "writefail_raise", "writefail_fatal", "writefail_raise_rt", "reuse_start", "reuse_finish")]
     + [{"do": "chunk", "frames": f} for f in (["discreq"], ["garbage"], ["reqenc"], ["badproto"], ["badmac"], ["unknown"])]
     + [{"do": "chunk", "frames": f} for f in (["discreq", "state"], ["discreq", "ping"], ["discreq", "discreq"], ["garbage", "state"], ["state", "discreq", "state2"], ["badproto", "state"])]
 )
